@@ -459,6 +459,17 @@ func literalsOf(fn *ssa.Function, named *types.Named) []*Literal {
 		if _, isPtr := deref(a.Type()).Underlying().(*types.Pointer); isPtr {
 			return
 		}
+		// a variable that receives a whole struct value (a by-value parameter spilled to memory, `x := *p`) is a copy
+		// that is then adjusted, not a literal: what it lacks is in the value it was copied from
+		if refs := a.Referrers(); refs != nil {
+			for _, r := range *refs {
+				if st, isSt := r.(*ssa.Store); isSt && st.Addr == ssa.Value(a) {
+					if _, isStruct := st.Val.Type().Underlying().(*types.Struct); isStruct {
+						return
+					}
+				}
+			}
+		}
 		lit := &Literal{Alloc: a, Type: n, Fn: fn, Fields: map[string]ssa.Value{}, Stores: map[string]*ssa.Store{}, All: map[string][]*ssa.Store{}}
 		// aliases of the allocation inside fn: the Alloc itself and loads of a location (x.f) into which only this
 		// allocation is stored in fn — `x.f = &T{}; x.f.g = v` fills the literal through x.f
